@@ -131,9 +131,15 @@ fn replay_file(path: &Path) -> Result<ReplayOutcome, String> {
     };
     match outcome {
         Ok(()) => Ok(ReplayOutcome::Pass),
-        Err(f) => {
+        Err(mut f) => {
             if f.kind == "invalid" {
                 return Err(f.message);
+            }
+            // a file saved as the reproducer of a wrong-answer finding names that finding
+            if let Some(id) = v["kf"].as_str() {
+                if f.kind == "mismatch" {
+                    f.tags.push(format!("replay_kf:{}", id));
+                }
             }
             if let Some(id) = ctx.kf.matches(&prop, &f) {
                 let what = ctx
